@@ -115,7 +115,27 @@ func runC28(c *Ctx) {
 				okE := false
 				var leaves []FlowPoint
 				phiLeaves(stripIface(v), sp, &leaves, map[*ssa.Phi]bool{})
+				// (a field may be formatted by a private helper: escapeOrNone(e.Name))
+				var expanded []FlowPoint
 				for _, lf := range leaves {
+					hc, hi, ok := CallResult(lf.Val)
+					var h *ssa.Function
+					if ok && !ViaGlobal(gEsc)(hc) {
+						h = hc.Common().StaticCallee()
+					}
+					if h != nil && h.Pkg == str.Pkg && len(h.Blocks) > 0 && len(h.Params) == 1 && len(hc.Common().Args) == 1 {
+						for _, hl := range ReturnLeaves(h, hi) {
+							if ec, _, isE := CallResult(hl.Val); isE && ViaGlobal(gEsc)(ec) && (Strip(ec.Common().Args[0]) == ssa.Value(h.Params[0]) || ec.Common().Args[0] == ssa.Value(h.Params[0])) {
+								if w != "Options" && IsFieldLoad(hc.Common().Args[0], fld(w)) {
+									okE = true
+								}
+							}
+						}
+						continue
+					}
+					expanded = append(expanded, lf)
+				}
+				for _, lf := range expanded {
 					if cc, _, ok := CallResult(lf.Val); ok && ViaGlobal(gEsc)(cc) {
 						a := cc.Common().Args[0]
 						if w == "Options" {
